@@ -186,15 +186,29 @@ func runParamsCase(ta *TestApp, seed uint64, idx int, rep *Report, profile strin
 	mstate := mintertypes.MinterState{SequenceId: mc.minters[rng.Intn(len(mc.minters))].seq, AmountMinted: sdk.ZeroInt(), RemainderToMint: sdk.ZeroDec(),
 		RemainderFromPreviousMinter: sdk.ZeroDec(), LastMintBlockTime: t0}
 	app.CfeminterKeeper.SetMinterState(ctx, mstate)
-	poolsExist := rng.Chance(40)
-	// start from an empty pool store, then maybe one pool
-	for _, avp := range app.CfevestingKeeper.GetAllAccountVestingPools(ctx) {
-		_ = avp
+	// 0-3 owner entries in the pool store, each with 0-2 pools (entries without pools come from a genesis or an upgrade;
+	// the store is ordered by owner address, so which entry comes first is random)
+	nEntries := 0
+	if rng.Chance(50) {
+		nEntries = 1 + rng.Intn(3)
 	}
-	if poolsExist {
-		app.CfevestingKeeper.SetAccountVestingPools(ctx, vesttypes.AccountVestingPools{Owner: sdk.AccAddress(rng.Bytes(20)).String(),
-			VestingPools: []*vesttypes.VestingPool{{Name: "p", VestingType: "vt", LockStart: t0, LockEnd: t0.Add(time.Hour), InitiallyLocked: sdk.NewInt(5), Withdrawn: sdk.ZeroInt(), Sent: sdk.ZeroInt()}}})
+	anyPool := false
+	for e := 0; e < nEntries; e++ {
+		avp := vesttypes.AccountVestingPools{Owner: sdk.AccAddress(rng.Bytes(20)).String()}
+		for j := 0; j < rng.Intn(3); j++ {
+			avp.VestingPools = append(avp.VestingPools, &vesttypes.VestingPool{Name: fmt.Sprintf("p%d", j), VestingType: "vt", LockStart: t0, LockEnd: t0.Add(time.Hour),
+				InitiallyLocked: sdk.NewInt(5), Withdrawn: sdk.ZeroInt(), Sent: sdk.ZeroInt()})
+			anyPool = true
+		}
+		app.CfevestingKeeper.SetAccountVestingPools(ctx, avp)
+		rep.Count(fmt.Sprintf("pool_store.entry_with_%d_pools", len(avp.VestingPools)))
 	}
+	if nEntries > 0 && anyPool {
+		if first := app.CfevestingKeeper.GetAllAccountVestingPools(ctx)[0]; len(first.VestingPools) == 0 {
+			rep.Count("pool_store.first_entry_empty_later_entry_with_pools")
+		}
+	}
+	poolsExist := false
 	poolsExist = len(app.CfevestingKeeper.GetAllAccountVestingPools(ctx)) > 0
 	if err := app.CfevestingKeeper.SetParams(ctx, vesttypes.Params{Denom: BondDenom}); err != nil {
 		panic(err)
@@ -445,6 +459,8 @@ func runParamsCase(ta *TestApp, seed uint64, idx int, rep *Report, profile strin
 		}
 		rep.Eval("C13.current_minter_period_exists", hasCur, idx, s, fmt.Sprintf("%s: stored minters no longer contain the current period %d", term, mstate.SequenceId))
 		rep.Eval("C13.vesting_denom_fixed_while_pools_exist", !poolsExist || afterV.Denom == beforeV.Denom, idx, s, term)
+		// evaluated on the pools themselves, not on the number of owner entries
+		rep.Eval("C13.vesting_denom_fixed_while_any_pool_is_stored", !anyPool || afterV.Denom == beforeV.Denom, idx, s, term)
 		mterm, mcfg := minterParamsTerm(afterM)
 		_ = mterm
 		obs := []*big.Int{bi(b2i(ok)), bi(b2i(afterM.MintDenom != "")), bi(afterM.StartTime.UnixNano()), bi(int64(len(mcfg.minters))), bi(b2i(afterV.Denom != ""))}
